@@ -78,12 +78,19 @@ finally:
 # demo in the scratch worktree it was written for: with the change, then without (git stash), then restored
 rc, out = run(['/venv/bin/python', 'SEED/demo.py'], wt, 300)
 meta['demo_with_change'] = {'cmd': 'cd <worktree> && /venv/bin/python SEED/demo.py', 'rc': rc, 'tail': out.strip().splitlines()[-3:]}
-run(['git', 'stash'], wt)
+# the demo without the change: reverse-apply the seed's own patch in the worktree (worktree-local; `git stash` is shared between
+# all worktrees of one repository and races with other users of it)
+pfile = os.path.join(dst, 'patch.diff')
+rc_r, out_r = run(['git', 'apply', '-R', pfile], wt)
 try:
-    rc, out = run(['/venv/bin/python', 'SEED/demo.py'], wt, 300)
-    meta['demo_without_change'] = {'cmd': 'git stash; /venv/bin/python SEED/demo.py; git stash pop', 'rc': rc, 'tail': out.strip().splitlines()[-2:]}
+    if rc_r != 0:
+        meta['demo_without_change'] = {'cmd': 'git apply -R SEED/patch.diff', 'rc': -1, 'tail': out_r.strip().splitlines()[-2:]}
+    else:
+        rc, out = run(['/venv/bin/python', 'SEED/demo.py'], wt, 300)
+        meta['demo_without_change'] = {'cmd': 'git apply -R SEED/patch.diff; /venv/bin/python SEED/demo.py; git apply SEED/patch.diff', 'rc': rc, 'tail': out.strip().splitlines()[-2:]}
 finally:
-    run(['git', 'stash', 'pop'], wt)
+    if rc_r == 0:
+        run(['git', 'apply', pfile], wt)
 meta['caught'] = any(c['rc'] == 1 for c in meta['check_with_change'].values())
 meta['property'] = prop.split(',')[0]
 meta['checks_run'] = prop.split(',')
